@@ -139,7 +139,10 @@ func buildEngine(engine, variant string) string {
 	if variant != "" {
 		tags += "," + variant
 	}
-	args := []string{"test", "-c", "-tags", tags, "-vet=off", "-overlay", ov, "-o", out, "./engines/" + engine}
+	// build to a private name and rename into place: concurrent checks may be executing the old binary
+	tmpOut := fmt.Sprintf("%s.tmp.%d", out, os.Getpid())
+	defer os.Remove(tmpOut)
+	args := []string{"test", "-c", "-tags", tags, "-vet=off", "-overlay", ov, "-o", tmpOut, "./engines/" + engine}
 	cmd := exec.Command(goBin, args...)
 	cmd.Dir = simDir
 	cmd.Env = goEnv()
@@ -148,6 +151,9 @@ func buildEngine(engine, variant string) string {
 	start := time.Now()
 	if err := cmd.Run(); err != nil {
 		die2("build of engine %s (tags %s) failed: %v\n%s", engine, tags, err, tail(buf.String(), 60))
+	}
+	if err := os.Rename(tmpOut, out); err != nil {
+		die2("install %s: %v", out, err)
 	}
 	fmt.Printf("built %s tags=%s in %.1fs\n", engine, strings.Replace(tags, ",verifworker", "", 1), time.Since(start).Seconds())
 	return out
